@@ -253,6 +253,14 @@ class _Clock:
         return self.t
 
 
+class _Rows(list):
+    """the op table of the per-op form: a list of rows; a two-dimensional subscript is array code - outside this form (the vector form takes over)"""
+    def __getitem__(self, k):
+        if isinstance(k, tuple):
+            raise ModelError('minieval: two-dimensional subscript of the op table')
+        return list.__getitem__(self, k)
+
+
 class LogArr(IntArr):
     def __init__(self, vals, clock):
         super().__init__(vals)
@@ -466,7 +474,7 @@ def _run_mode(stmts, cls, modtree, nd):
                     nev += 1
                     clock = _Clock()
                     heap = RefHeap(clock)
-                    me = NS(ops=[list(o) for o in ops], zero_idx=Z, tmp_idx=T, tmp2_idx=T2, ppi_offset=ppi, ppo_offset=ppo, c_locs_len=total,
+                    me = NS(ops=_Rows(list(o) for o in ops), zero_idx=Z, tmp_idx=T, tmp2_idx=T2, ppi_offset=ppi, ppo_offset=ppo, c_locs_len=total,
                             s_len=ns, circuit=c)
                     tables = IntArr
                     if nd:
